@@ -28,7 +28,8 @@ RULE = ("(a) attribute texts over all 2^10 subsets of the recognised keys (schem
         "elsewhere and holds decoy files under the same relative paths), the token stream the macro RETURNS to rustc (hook) == "
         "library tokens for the same options (whitespace-insensitive); eight struct visibilities incl. pub(in path); every fourth "
         "derive has a twin - the same struct name over the same files in a sibling module with other options - whose returned "
-        "tokens must follow its own attribute. Non-trivial = text with >= 3 keys or a non-plain literal; distinct by text")
+        "tokens must follow its own attribute; every fourth derive names a query file whose NAME contains a backslash (a decoy waits "
+        "where a separator rewrite would lead); a quarter reach the schema through a symlinked directory. Non-trivial = text with >= 3 keys or a non-plain literal; distinct by text")
 
 KEYS = ["schema_path", "query_path", "response_derives", "variables_derives", "custom_scalars_module", "deprecated", "normalization",
         "fragments_other_variant", "skip_serializing_none", "extern_enums"]
@@ -236,12 +237,12 @@ def part_b(run):
     os.makedirs(os.path.join(fac.work, "in2"))
     os.symlink(os.path.join(fac.work, "viaroot", "deep", "real"), os.path.join(fac.work, "linkdir"))
 
-    def attribute_for(c, o, sp, cid, abs_schema=False, via_link=False):
+    def attribute_for(c, o, sp, cid, abs_schema=False, via_link=False, qrel=None):
         keys = []
         st = lambda v: lit(v, rng.choice(["plain", "plain", "raw", "hash-raw", "escaped"]))[0]
         # an absolute schema path (a schema shared outside the crate) resolves to itself against any directory
         keys.append("schema_path = %s" % st(os.path.join(ind, sp) if abs_schema else ("../linkdir/../in2/" + sp if via_link else "../in/" + sp)))
-        keys.append("query_path = %s" % st("../in/" + cid + ".query.graphql"))
+        keys.append("query_path = %s" % st(qrel or "../in/" + cid + ".query.graphql"))
         for k, a in (("response_derives", "response_derives"), ("variables_derives", "variables_derives"), ("normalization", "normalization"),
                      ("deprecation", "deprecated"), ("custom_scalars_module", "custom_scalars_module")):
             if o.get(k) is not None:
@@ -275,7 +276,17 @@ def part_b(run):
             shutil.copy(os.path.join(ind, sp), os.path.join(fac.work, "viaroot", "deep", "in2", sp))
             with open(os.path.join(fac.work, "in2", sp), "w") as fh:
                 fh.write("type Query { decoy_of_a_textually_normalised_path: Int }\n" if not sp.endswith(".json") else "{}")
-        attr, sname = attribute_for(c, o, sp, cid, abs_schema=abs_schema, via_link=via_link)
+        qrel = None
+        if ci % 4 == 0:
+            # a backslash is an ordinary file-name character here: `../in/bs\c0.query.graphql` is ONE file in `in`, not the
+            # file c0.query.graphql in the directory `in/bs` (which holds a decoy) - the value reaches the library as written
+            qrel = "../in/bs\\" + cid + ".query.graphql"
+            shutil.copy(os.path.join(ind, cid + ".query.graphql"), os.path.join(ind, "bs\\" + cid + ".query.graphql"))
+            os.makedirs(os.path.join(ind, "bs"), exist_ok=True)
+            with open(os.path.join(ind, "bs", cid + ".query.graphql"), "w") as fh:
+                fh.write("query DecoyBehindARewrittenSeparator { __typename }\n")
+            run.count("query-paths-with-a-backslash-in-the-file-name")
+        attr, sname = attribute_for(c, o, sp, cid, abs_schema=abs_schema, via_link=via_link, qrel=qrel)
         # the consumer's extern enum / scalar support follows the normalisation actually in force
         eff_norm = "rust" if (o.get("normalization") or "").lower().strip() == "rust" else "none"
         sup_opts = dict(o, normalization=eff_norm)
@@ -300,7 +311,7 @@ def part_b(run):
         else:
             srcs[cid] = support_code(c) + attr
             written[cid] = {"attr": attr, "schema_rel": os.path.join(ind, sp) if abs_schema else ("../linkdir/../in2/" + sp if via_link else "../in/" + sp),
-                            "query_rel": "../in/" + cid + ".query.graphql", "struct": sname}
+                            "query_rel": qrel or "../in/" + cid + ".query.graphql", "struct": sname}
     # rustc runs somewhere else than in the manifest directory (as under cargo in a workspace), and from there the same
     # relative paths lead to other files: whoever resolves a path against the working directory reads these
     elsewhere = os.path.join(fac.work, "elsewhere", "cwd")
@@ -320,7 +331,7 @@ def part_b(run):
             except ValueError:
                 continue
             qp = e.get("query_path") or ""
-            m = re.search(r"/(c\d+)\.query\.graphql$", qp)
+            m = re.search(r"[/\\](c\d+)\.query\.graphql$", qp)
             if m and e.get("stage") == "returned":
                 returned.setdefault(m.group(1), []).append(e)       # what the macro really handed back to rustc
             elif m:
